@@ -11,6 +11,7 @@ func init() {
 			c.RulerKeyAgreement("C04")
 			c.SigningRootProvenance("C04")
 			c.ScatterIndexDiscipline("C04")
+			c.ScatterPartition("C04")
 			c.ForkJoinRules("C04")
 			c.GateTypestate("C04")
 		},
